@@ -1,10 +1,10 @@
 package main
 
 import (
-	"strings"
 	"go/ast"
 	"go/token"
 	"go/types"
+	"strings"
 )
 
 func init() {
@@ -356,7 +356,9 @@ func rulesC13(c *Ctx) {
 		}
 	})
 
-	c.Import("R-C13-7", "keep-alive ends silently when the peer reports ping as unsupported, also when the report arrives as an HTTP error status with a JSON-RPC body: the streamable client wraps the peer's error with %w, so errors.Is(err, ErrMethodNotFound) still sees -32601", "C19", "R-C19-9", func(k string) bool { return strings.Contains(k, "peer-error-wrapped") || strings.Contains(k, "errors wrapping both") })
+	c.Import("R-C13-7", "keep-alive ends silently when the peer reports ping as unsupported, also when the report arrives as an HTTP error status with a JSON-RPC body: the streamable client wraps the peer's error with %w, so errors.Is(err, ErrMethodNotFound) still sees -32601", "C19", "R-C19-9", func(k string) bool {
+		return strings.Contains(k, "peer-error-wrapped") || strings.Contains(k, "errors wrapping both")
+	})
 	c.Rule("R-C13-5", "the streamable client marks a message that did not reach the server as rejected (wrapping jsonrpc2.ErrRejected with %w), so a failed ping POST is a miss and not a broken writer: the connection survives to the next ping", func() {
 		wr := c.Fn(pM, "streamableClientConn", "Write")
 		rej := c.Obj(pJ, "ErrRejected")
